@@ -42,6 +42,57 @@ func main() {
 		os.Exit(cmdCheck(os.Args[2:]))
 	case "dump":
 		os.Exit(cmdDump(os.Args[2:]))
+	case "matrix":
+		// one load, every property's rules; prints one line per property with the ids of
+		// violated/undecided obligations that are not known findings (no evidence written)
+		mrepo := "/repo"
+		if len(os.Args) > 2 {
+			mrepo = os.Args[2]
+		}
+		w, err := Load(mrepo, nil, "")
+		if err != nil {
+			fmt.Println("CHECK-BROKEN", err)
+			os.Exit(2)
+		}
+		known, _ := loadKnown("/verif/known_findings.txt")
+		ids := make([]string, 0, len(rules))
+		for id := range rules {
+			ids = append(ids, id)
+		}
+		sort.Strings(ids)
+		for _, id := range ids {
+			rep := NewReport(id, "quick")
+			func() {
+				defer func() {
+					if e := recover(); e != nil {
+						rep.Broken = append(rep.Broken, fmt.Sprint("panic: ", e))
+					}
+				}()
+				rules[id].Run(w, rep)
+			}()
+			var bad []string
+			for _, o := range rep.Obs {
+				if o.Status != "violated" && o.Status != "undecided" {
+					continue
+				}
+				isKnown := false
+				for _, k := range known {
+					if k.Property == id && k.ObID == o.ID {
+						isKnown = true
+					}
+				}
+				if !isKnown {
+					bad = append(bad, o.ID)
+				}
+			}
+			status := "ok"
+			if len(bad) > 0 {
+				status = "VIOLATION"
+			} else if len(rep.Broken) > 0 {
+				status = "BROKEN " + strings.Join(rep.Broken, "; ")
+			}
+			fmt.Printf("%s %s %s\n", id, status, strings.Join(bad, " "))
+		}
 	case "effects":
 		w, err := Load("/repo", nil, "")
 		if err != nil {
@@ -146,6 +197,26 @@ func cmdCheck(args []string) int {
 		}()
 		rule.Run(w, rep)
 	}()
+	if *tier == "thorough" && *overlay == "" {
+		// self-test of the checker: seeded changes must be reported, behaviour-preserving
+		// refactorings must stay silent (each in a separate analyser process, as an overlay)
+		res := selfTest(*prop, *repo, *verif)
+		counts := map[string]int{}
+		for _, v := range res {
+			counts[v.Kind+"_"+v.Result]++
+			switch v.Result {
+			case "survived", "fired", "error":
+				fmt.Printf("SELFTEST-WARN %s variant %s: %s %s\n", v.Kind, v.Name, v.Result, v.Detail)
+			}
+		}
+		rep.Extra = map[string]interface{}{"selftest_variants": res}
+		for k, n := range counts {
+			rep.Stats["selftest_"+k] = n
+		}
+		fmt.Printf("selftest: mutants killed=%d survived=%d, benign silent=%d fired=%d, skipped=%d, errors=%d\n",
+			counts["mutant_killed"], counts["mutant_survived"], counts["benign_silent"], counts["benign_fired"],
+			counts["mutant_skipped"]+counts["benign_skipped"], counts["mutant_error"]+counts["benign_error"])
+	}
 	vd := *verif
 	if *noEvidence {
 		vd = filepath.Join(os.TempDir(), "tibcvet-noev-"+strconv.Itoa(os.Getpid()))
